@@ -82,8 +82,29 @@ pub fn process_prologue(offset: u64) {
     let env_on = offset % 4 == 1 || offset % 4 == 3;
     let log_on = offset % 4 >= 2;
     crate::set_logging(log_on);
-    let _ = crate::entropy::with_env(0x5eed_0000 + offset as u128, env_on, || {
+    // name pressure: the process has already met N distinct element / attribute names, N just below a power of two
+    // (bounded symbol tables, interners and caches in the code under test are then about to roll over)
+    let pressure = [0usize, 250, 1020, 4090, 8185, 16380, 4094, 0][(offset / 4 % 8) as usize];
+    let _ = crate::entropy::with_env(0x5eed_0000 + offset as u128, env_on, move || {
         let _ = std::panic::catch_unwind(|| {
+            if pressure > 0 {
+                // spread over many parents so that the per-parent sibling lists stay short
+                let mut doc = String::from("<names>");
+                let mut i = 0;
+                while i < pressure {
+                    doc.push_str(&format!("<q{}>", i / 100));
+                    for j in i..(i + 100).min(pressure) {
+                        doc.push_str(&format!("<z{j} w{j}=\"1\"/>"));
+                    }
+                    doc.push_str(&format!("</q{}>", i / 100));
+                    i += 100;
+                }
+                doc.push_str("</names>");
+                let mut r = Reader::from_str(&doc);
+                if let Ok(t) = into_struct(&mut r) {
+                    let _ = t.to_serde_struct(&Options::quick_xml_de());
+                }
+            }
             let mut r = Reader::from_str("<Zeta b=\"1\" A=\"2\" xml:lang=\"x\"><alpha>t</alpha><Beta/><alpha/></Zeta>");
             if let Ok(t) = into_struct(&mut r) {
                 let mut r2 = Reader::from_str("<Zeta c=\"3\"><gamma><alpha/></gamma></Zeta>");
@@ -521,6 +542,20 @@ fn check(args: &[String]) -> Result<i32, String> {
             let so = String::from_utf8_lossy(&o2.stdout).to_string();
             let want = format!("REPLAYED class={class}");
             if o2.status.code() != Some(1) || !so.lines().any(|l| l.trim() == want) {
+                // reproduced while shrinking but not in the replay process: depends on more than the scenario
+                // (addresses, what the process did before). Fall back to the worker's run prefix.
+                let offset = run % workers;
+                let o3 = Command::new(&exe)
+                    .args(["prefix", &id, &seed.to_string(), &offset.to_string(), &workers.to_string(), &run.to_string(), &path])
+                    .output()
+                    .map_err(|e| e.to_string())?;
+                if o3.status.code() == Some(0) {
+                    let o4 = Command::new(&exe).args(["replay", &path]).output().map_err(|e| e.to_string())?;
+                    if o4.status.code() == Some(1) {
+                        reported = Some((format!("{class}:needs_process_history"), path));
+                        break;
+                    }
+                }
                 return Err(format!("replay of {path} did not reproduce class {class}: exit {:?}\n{so}", o2.status.code()));
             }
             let witness = std::fs::read_to_string(&path).ok().and_then(|s| json::parse(&s).ok()).and_then(|j| j.str_of("witness").ok()).unwrap_or_default();
